@@ -238,6 +238,29 @@ void profile_resolve(Gen &g) {
 	p.knobs["indep"] = "0";
 }
 
+// grow: one object pushed across the internal growth thresholds (100 rows, 100 columns, 1000 nonzeros) by many small
+// additions, with the other edits, a few solves and copies in between (C06, C17)
+void profile_grow(Gen &g) {
+	Plan &p = g.p; Rng &r = g.r;
+	p.lps.push_back(g.gen_lp(0, 5, 5));
+	Op cr = g.gen_create(0, 1); p.ops.push_back(cr);
+	int nops = r.range(90, 200); bool rows_first = r.chance(1, 2);
+	for (int k = 0; k < nops; k++) {
+		int d = (int)r.below(100);
+		if (d < 78) { static const char *addr[] = {"newrow", "addrow", "addrows", "addrows"}, *addc[] = {"newcol", "addcol", "addcols", "addcols"};
+			bool row = rows_first ? (k < nops / 2 ? r.chance(4, 5) : r.chance(1, 3)) : r.chance(1, 2);
+			Op e; for (int t = 0; t < 40; t++) { e = g.gen_edit(0); std::string w = e.s("what"); bool hit = false; for (int q = 0; q < 4; q++) if (w == (row ? addr[q] : addc[q])) hit = true; if (hit) break; }
+			g.seti(e, "o", 0); if (e.has("cnt")) g.seti(e, "cnt", 2); p.ops.push_back(e); }
+		else if (d < 90) { Op e = g.gen_edit(0); g.seti(e, "o", 0); p.ops.push_back(e); }
+		else if (d < 94) { Op s = g.gen_solve(0, r.chance(1, 2) ? "dual" : "primal"); g.seti(s, "o", 0); if (g.faults && r.chance(1, 3)) g.add_interruption(s); p.ops.push_back(s); }
+		else if (d < 96) { Op o = g.mk(0, "copy"); g.seti(o, "o", 0); g.seti(o, "to", 0); p.ops.push_back(o); }
+		else if (d < 98 && g.ok("tableau")) { Op t = g.mk(0, "tableau"); g.seti(t, "o", 0); p.ops.push_back(t); }
+		else { Op o = g.gen_param(0); g.seti(o, "o", 0); p.ops.push_back(o); }
+	}
+	if (r.chance(1, 2)) { Op s = g.gen_solve(0, "exact"); g.seti(s, "o", 0); p.ops.push_back(s); }
+	p.knobs["indep"] = "0"; p.knobs["fresh"] = "0";
+}
+
 // one LP, one or two objects, configuration and solves, float faults (C01/C02/C03/C12)
 void profile_solve(Gen &g) {
 	Plan &p = g.p; Rng &r = g.r;
@@ -377,6 +400,7 @@ Plan make_plan(const std::string &profile, uint64_t seed, const Args &opts) {
 	else if (profile == "io") profile_io(g, false);
 	else if (profile == "lu") profile_lu(g);
 	else if (profile == "resolve") profile_resolve(g);
+	else if (profile == "grow") profile_grow(g);
 	else if (profile == "cli") profile_cli(g);
 	else if (profile == "reader") profile_io(g, true);
 	else profile_hist(g, false, false);
